@@ -90,6 +90,40 @@ def check(rep, tier, seed):
             dis.append((C.codec_line(c), a, m))
         else:
             cls["both ok" if a.startswith("ok ") else "both err"] += 1
+    # bytes written by ANOTHER version of the declaration (legal histories and, half of the time, histories that drop or
+    # hide fields anywhere): whatever the reader accepts must be what the reference decoder assigns to those bytes
+    from . import c03 as H3
+    from .. import catalogue as K
+    hc = H3.gen_cases(seed + 6, tier, p_illegal=0.5, nh=(300 if tier == "quick" else 8000))
+    himpl = H3.run_stream(harness, model, hc, C.workdir("C06x"))
+    nx = 0
+    for c, il in zip(hc, himpl):
+        dec_part = il.partition(" ; ")[2]
+        if dec_part.startswith("ok ") and "model_dec" in c:
+            nx += 1
+            if dec_part != c["model_dec"]:
+                bad.append(({"env": c["envR"], "cmd": "dec", "ty": c["wrap"], "hex": il.split(" ")[1] if il.startswith("ok ") else "-"},
+                            dec_part, c["model_dec"],
+                            f"version-{c['w']} data accepted by version {c['r']} decodes to something else than the format assigns"))
+    # the same on the compiled history families of the catalogue (real macro)
+    env = K.load()
+    rngx = C.rng_for(seed, "C06s")
+    sc = []
+    for fam, nv in (("H1v", 5), ("H2v", 5), ("HEv", 4), ("H3v", 3)):
+        ids = [K.index_of(env, f"{fam}{i}") for i in range(nv)]
+        for w in range(nv):
+            for r in range(nv):
+                for v in K.gen_values(rngx, env, ids[w], 4 if tier == "quick" else 60):
+                    sc.append({"cmd": "sx", "w": ids[w], "r": ids[r], "val": v, "sfx": "0709"})
+    simpl, smod, shl = K.run_static(harness, model, env, sc, C.workdir("C06s"), "st")
+    for l, a, m in zip(shl, simpl, smod):
+        da, dm = a.partition(" ; ")[2], m.partition(" ; ")[2]
+        if da.startswith("ok ") and da != dm:
+            bad.append(({"env": "(catalogue)", "cmd": "dec", "ty": l, "hex": "-"}, da, dm,
+                        "data of another compiled version is accepted as something else than the format assigns"))
+        elif da != dm:
+            dis.append((l, a, m))
+    rep.coverage["cross_version_accepted_inputs"] = {"dynamic": nx, "static": len(sc)}
     C.proof_coverage(rep, ob, "C06")
     rep.coverage.update({
         "evaluations": len(cases), "distinct_nontrivial": len(set(lines)),
